@@ -14,9 +14,11 @@ from .common import enc_ext, enc_list, Toks
 RULE = ('block systems: 1..3 blocks with block shapes in {(), (2,), (3,), (2,2)}, every subset of present (i,j) blocks for <= 2 blocks '
         '(sampled for 3), present/absent right-hand-side blocks; entries from {0,1/4,1/2,1,2,inf} (Real; spectral radius <1, =1, >1 all '
         'occur), {-inf,0,-1,-2,1} (Viterbi), Bool; dense and patterned (diagonal, shifted) blocks; x transpose; plus dense Semiring.solve and '
-        'PatternedTensor.solve on n<=4 systems with vector and matrix right-hand sides; non-trivial = some off-diagonal block present')
+        'PatternedTensor.solve on n<=4 systems with vector and matrix right-hand sides, on typed random sparsity patterns and on the growth family, '
+        'each also compared at the level of the REPRESENTATION with the model Ps.solve (pattern exactly, values exactly or within 1e-9) together with '
+        'the per-job deciders Ps.closed / Ps.resolved; non-trivial = some off-diagonal block present')
 ASSUMPTIONS = ['torch.linalg.solve (LU) is not modelled: when RealSemiring takes that path the result is compared within 1e-9 relative',
-               'Real leastness is validated per case (fixed point + dominates the Kleene partial sums), not proved']
+               'Real leastness of the dense solver on the carrier [0, inf] is proved (C09b) and additionally validated per case (fixed point + dominates the Kleene partial sums)']
 
 REAL_V = [0.0, 0.25, 0.5, 1.0, 2.0, 0.0, 0.0, 0.25]
 VIT_V = [-math.inf, 0.0, -1.0, -2.0, 1.0, -math.inf]
